@@ -102,11 +102,12 @@ func (dec *propertiesDecoder) Decode() (*CandidateNode, error) {
 		dec.finished = true
 		return nil, io.EOF
 	}
-	properties, err := properties.LoadString(buf.String())
+	// values are data: load without checking (or performing) ${..} expansion
+	loader := &properties.Loader{Encoding: properties.UTF8, DisableExpansion: true}
+	properties, err := loader.LoadBytes(buf.Bytes())
 	if err != nil {
 		return nil, err
 	}
-	properties.DisableExpansion = true
 
 	rootMap := &CandidateNode{
 		Kind: MappingNode,
